@@ -40,6 +40,11 @@ def generate(g, tier):
             it = Interp(rd.line_of, None); exp = it.program(body)
             if exp[0] != 'ok': continue
             exp_out, exp_prints = exp[1], [p[0] for p in exp[2]]
+            inv_limit = r.choice([5, 20, 200]) if g.chance(0.3) else None
+            # the expectation below is that of the program itself: keep every stack limit that may be in force
+            # (command line, project file, home file, default) clear of the program's own nesting
+            in_force = [inv_limit] if inv_limit is not None else [DEFAULTS['stack_limit'], (home_cfg or {}).get('stack_limit'), cfgs.get('proj', {}).get('stack_limit')]
+            if any(l is not None and it.max_depth + 3 > l for l in in_force): continue
             if kind == 'fail-end':
                 text += '\n$STRING 1/0'; nlines = text.count('\n') + 1
                 m = dict(expect='fail', cls='DivideByZeroError', line=nlines, prints=exp_prints)
@@ -57,7 +62,7 @@ def generate(g, tier):
             stale = r.choice([None, 'STALE PAYLOAD\n', ''])
             if stale is not None and out not in pre and not any(i['output'] == out for i in invs): pre[out] = stale
             inv = dict(cmd='compile', file=src, output=out)
-            if g.chance(0.3): inv['stack_limit'] = r.choice([5, 20, 200])
+            if inv_limit is not None: inv['stack_limit'] = inv_limit
             if g.chance(0.3): inv['comments'] = r.choice([True, False])
             invs.append(inv); metas.append(m)
         if invs:
